@@ -1149,10 +1149,30 @@ class Scenario:
                     changed = True
         terms = []
         for y in S:
-            inside = sum(n for (i, j), n in self.rec.items() if j == y and i in S and n > 0) + self.rec_same.get(y, 0)
-            # the ledger already reflects the removal of the handle that is being dropped
-            hold = self.holders(y)
-            terms.append(s_eq(hold, inside))
+            # handles to y held by the values of members of S, per owner, must each be covered by a record of that owner
+            # (a same-handle Loopback record of y covers a handle y's own value holds); every other strong handle to y
+            # (named, raw, extra e_y, held by a value outside S or by a moved-out value) makes y externally owned.
+            # The ledger already reflects the removal of the handle that is being dropped.
+            stored = {}
+            outside = 0
+            for pid, pl in self.payloads.items():
+                k = sum(1 for hv, tgt in pl.strong if tgt == y)
+                if not k:
+                    continue
+                if pl.obj is not None and pl.obj in S and self.alive(pl.obj):
+                    stored[pl.obj] = stored.get(pl.obj, 0) + k
+                else:
+                    outside += k
+            for i, k in stored.items():
+                cover = self.rec.get((i, y), 0) + (self.rec_same.get(y, 0) if i == y else 0)
+                if k > cover:
+                    terms.append(False)
+            ext = self.holders(y)
+            inside_handles = sum(stored.values())
+            # holders(y) = named + raw + extras + all payload handles: externally owned iff holders(y) != handles stored inside S
+            if outside:
+                terms.append(False)
+            terms.append(s_eq(ext, inside_handles))
         if any(t is False for t in terms):
             return (S, False)
         ts = [t for t in terms if t is not True]
@@ -1183,7 +1203,22 @@ class Scenario:
             self.check_collected()
 
     def check_counts(self):
+        named = {}
+        for name, x in self.handles.items():
+            if x['kind'] == 'rc' or (x['kind'] == 'raw' and x.get('counts', True)):
+                named[x['obj']] = named.get(x['obj'], 0) + 1
         for idx, oi in self.objs.items():
+            if oi.destroyed and not oi.unwrapped and not self.dtor_stack:
+                # the value is gone although strong handles exist that the program itself holds (directly, or inside the
+                # value of an object it holds directly): no value of strong_count can equal the number of handles any more
+                n = named.get(idx, 0) + len(oi.extra_real)
+                for pid, pl in self.payloads.items():
+                    po = self.objs.get(pl.obj) if pl.obj is not None else None
+                    if po is not None and not po.destroyed and named.get(pl.obj, 0) > 0:
+                        n += sum(1 for hv, tgt in pl.strong if tgt == idx)
+                if n > 0:
+                    raise Violation('C06', 'handles-outlive-value', 'after op %d the program holds %d strong handle(s) to object %d whose value has been destroyed: '
+                                    'the strong count (0 or the dead mark) no longer equals the number of strong handles' % (self.op_index, n, idx), self.model_values(None))
             if oi.destroyed or oi.unwrapped or oi.freed:
                 continue
             s = self.strong(idx)
